@@ -170,7 +170,7 @@ inductive Follow where
   | infoRespBad          -- type 61, answer count and data inconsistent
   | gssToken             -- USERAUTH_GSSAPI_TOKEN with an 8-byte token
   | gssMic               -- USERAUTH_GSSAPI_MIC
-  | other                -- a message of another type (here: a USERAUTH_REQUEST)
+  | other                -- a message of another type (here: SSH_MSG_UNIMPLEMENTED)
 deriving DecidableEq, Repr, Inhabited
 
 /-- what `parseGSSAPIPayload` and the OID scan make of the request payload -/
